@@ -58,6 +58,7 @@ class Profile:
         self.p_savecs = 0.0            # probability that a version is written through SaveChangeSet
         self.p_reopen_old = 0.0        # reopen positioned on an older version (reads only), then back to latest
         self.p_save_existing = 0.5     # after loading an old version: replay the same writes (idempotent save)
+        self.p_iterrace = 0.0          # conc mode only: probability that a commit races a parked index reader
         self.p_hold = 0.0              # probability that a deletion is attempted while an export pins one of its versions
         self.p_churn = 0.05            # probability of a version with many inserts, a hash query, then many removals
         for k, v in kw.items():
@@ -312,8 +313,10 @@ class Hist:
             self.emit("gwi " + enc(k))
 
     def save(self):
-        self.emit("save")
         v = self.wver()
+        # (C06) commit while a reader of the latest version sits between its index check and its iterator
+        racing = self.base > 0 and v not in self.versions and self.r.random() < self.p.p_iterrace
+        self.emit("iterrace" if racing else "save")
         if v in self.versions:
             # existing version: succeeds only with identical root hash; the shadow does not know —
             # resynchronise from what the model says is not possible here, so such saves are only
@@ -1363,7 +1366,8 @@ def gen_conc(seed, n, start_id=0):
     prof = Profile(p_prune=0.35, p_loadow=0.0, p_reopen=0.1, p_load_old=0.0, p_delfrom=0.0, p_rollback=0.1,
                    check_all_versions=0.05, reads_per_version=(0, 1), imm_reads_per_version=(0, 1),
                    meta_per_version=(0, 1), p_hash_read=0.1, versions=(2, 7), nkeys=6, ivs=[None, None, 3],
-                   dbs=["mem", "mem", "ldb"], thrs=[150, 300, 0, 0], caches=[0, 0, 3, 100], p_empty_value=0.05)
+                   dbs=["mem", "mem", "ldb"], thrs=[150, 300, 0, 0], caches=[0, 0, 3, 100], p_empty_value=0.05,
+                   p_iterrace=0.3)
     for i in range(n):
         rng = random.Random((seed * 67867967 + start_id + i) & 0xFFFFFFFFFFFF)
         h = Hist(rng, prof, "q%d" % (start_id + i))
